@@ -13,7 +13,7 @@ pub const PORT: u8 = 2;
 
 /// `out` is `b` with the authority `b[a0..a1]` replaced by
 /// `[ userinfo "@" ] host [ ":" port ]` where exactly one part is replaced.
-fn is_expected(out: &[u8], b: &[u8], a0: usize, a1: usize, op: u8, new: Option<&[u8]>) -> bool {
+fn is_expected(out: &[u8], b: &[u8], a0: usize, a1: usize, op: u8, new: Option<&[u8]>, k: usize) -> bool {
     let a = &b[a0..a1];
     let s = split_auth(a);
     let mut ui = s.user_info.map(|(x, e)| &a[x..e]);
@@ -26,7 +26,7 @@ fn is_expected(out: &[u8], b: &[u8], a0: usize, a1: usize, op: u8, new: Option<&
     }
     let e: &[u8] = b"";
     let pieces: [&[u8]; 7] = [&b[..a0], ui.unwrap_or(e), if ui.is_some() { b"@" } else { e }, host, if port.is_some() { b":" } else { e }, port.unwrap_or(e), &b[a1..]];
-    concat_eq(out, &pieces)
+    concat_eq(out, &pieces, k)
 }
 
 fn arg_valid(op: u8, a: &[u8]) -> bool {
@@ -71,7 +71,7 @@ fn one_op<const OP: u8, const N: usize, const M: usize>() {
         (v.as_ptr(), v.len())
     };
     let out = x.as_bytes();
-    assert!(is_expected(out, b, a0, a1, OP, if some { Some(arg) } else { None }), "C11: the edit did not change exactly that sub-component");
+    assert!(is_expected(out, b, a0, a1, OP, if some { Some(arg) } else { None }, N + M + 3), "C11: the edit did not change exactly that sub-component");
     assert!(tables::t_uri_uriref_valid_k(out, N + M + 3), "C04: the buffer is no longer a valid URI reference after the authority edit");
     let fresh = x.authority().unwrap().as_bytes();
     assert!(hp == fresh.as_ptr() && hl == fresh.len(), "C11: after the call the handle does not view exactly the new authority");
